@@ -79,10 +79,12 @@ func runRead(spec world.WorldSpec, faults []term.Fault, out *core.Outcome, prep 
 		}
 	}
 	s0 := term.SlogSteps.Load()
+	term.ArmStepBound(20000000) // far above any read (fault-free reads log a few thousand records); cuts logging loops
 	func() {
 		defer func() { r.Panic = recover() }()
 		r.Doc, _, r.Err = rd.ReadDocument(pass, []byte{0x3B, 0x80}, []byte{0x78, 0x77})
 	}()
+	term.DisarmStepBound()
 	r.Slog = term.SlogSteps.Load() - s0
 	return r
 }
